@@ -18,7 +18,8 @@ def std_refusals(tb):
         if built.stage == "flex" and ("f" in tb or "F" in tb) and built.flex.rc == 1:
             w = built.warnings
             return ("variable trailing context rules cannot be used" in w or
-                    "cannot be used with -f or -F" in w)
+                    "cannot be used with -f or -F" in w or
+                    "yylineno cannot be used with REJECT" in w)
         return False
     return expect_build
 
@@ -267,9 +268,10 @@ def c08_job(chk, rng, i):
     if array and rng.chance(40):
         cfg["opts"]["yylmax"] = 512
     bs = rng.choice([None, 16, 64, 300])
-    if bs:
-        # push-back is kept far below the buffer size ("within the documented capacity")
-        cfg["opts"]["bufsize"] = max(bs, 64) if "unput" in case.get("uses", []) else bs
+    if bs and "unput" not in case.get("uses", []):
+        # push-back only with the default buffer: ample room, i.e. "within the documented
+        # push-back capacity" by construction
+        cfg["opts"]["bufsize"] = bs
     return {"case": case, "configs": [cfg], "inputs": inputs, "skip_if": dangerous,
             "features": ["array" if array else "pointer"]}
 
@@ -308,11 +310,7 @@ def c09_job(chk, rng, i):
     if case["opts"].get("uses_reject") and ("f" in tb or "F" in tb):
         tb = ""
     cfg = {"flavour": fl, "flexargs": lib.tables_args(tb, 8), "opts": {"array": i % 5 == 4}}
-
-    def expect_build(cfg, built):
-        if built.stage == "flex" and ("f" in tb or "F" in tb):
-            return "variable trailing context rules cannot be used" in built.warnings
-        return False
+    expect_build = std_refusals(tb)
     routes = set()
     for r in case["rules"]:
         ks = pat.node_kinds(r["pat"])
